@@ -20,7 +20,7 @@ version = "0.1.0"
 edition = "2021"
 publish = false
 [dependencies]
-any_vec = { path = "/repo" }
+any_vec = { path = "%s" }
 impls = "1.0.3"
 [workspace]
 """
@@ -46,7 +46,7 @@ def known_sigs():
 def write_crate(name, main_rs, lib=False):
     d = os.path.join(TARGET, "gen", name)
     os.makedirs(os.path.join(d, "src"), exist_ok=True)
-    open(os.path.join(d, "Cargo.toml"), "w").write(CARGO_TOML % name)
+    open(os.path.join(d, "Cargo.toml"), "w").write(CARGO_TOML % (name, os.environ.get("ANYVEC_SRC", "/repo")))
     lock = os.path.join(PROBES, "Cargo.lock")
     if os.path.exists(lock):
         import shutil
